@@ -215,11 +215,19 @@ pub struct Hot<'a> {
     pub run: &'a Run,
     local: std::cell::RefCell<Local>,
     samples: std::cell::Cell<u32>,
+    violations: std::cell::Cell<u64>,
+    hashed: std::cell::Cell<u64>,
 }
 
 impl<'a> Hot<'a> {
     pub fn new(run: &'a Run) -> Hot<'a> {
-        Hot { run, local: Default::default(), samples: std::cell::Cell::new(0) }
+        Hot {
+            run,
+            local: Default::default(),
+            samples: std::cell::Cell::new(0),
+            violations: std::cell::Cell::new(0),
+            hashed: std::cell::Cell::new(0),
+        }
     }
     pub fn count(&self, name: &str, n: u64) {
         self.local.borrow_mut().count(name, n);
@@ -232,8 +240,16 @@ impl<'a> Hot<'a> {
         l.eval();
         l.maybe_flush(self.run);
     }
+    /// At most 250 000 hashes per thread are kept (the distinct count in the evidence is then a
+    /// lower bound; the rest is counted in `nontrivial_cases_beyond_hash_cap`).
     pub fn nontrivial(&self, h: u64) {
-        self.local.borrow_mut().nontrivial(h);
+        let n = self.hashed.get();
+        if n < 250_000 {
+            self.hashed.set(n + 1);
+            self.local.borrow_mut().nontrivial(h);
+        } else {
+            self.count("nontrivial_cases_beyond_hash_cap", 1);
+        }
     }
     /// Only the first few calls of a thread reach `Run::sample` (which keeps the first few overall).
     pub fn sample(&self, v: impl FnOnce() -> vh_core::serde_json::Value) {
@@ -245,8 +261,17 @@ impl<'a> Hot<'a> {
     pub fn sample_upto(&self, n: usize, v: vh_core::serde_json::Value) {
         self.run.sample_upto(n, v);
     }
+    /// Forwarded to `Run::violation`; after 2000 per thread the rest is only counted
+    /// (`violations_beyond_cap_only_counted`, plus the per-class `wrong:*` counters), so that a tree
+    /// with a systematic defect does not make the run keep millions of signatures.
     pub fn violation(&self, signature: &str, what: &str, replay: vh_core::serde_json::Value) {
-        self.run.violation(signature, what, replay);
+        let n = self.violations.get();
+        self.violations.set(n + 1);
+        if n < 2000 {
+            self.run.violation(signature, what, replay);
+        } else {
+            self.count("violations_beyond_cap_only_counted", 1);
+        }
     }
     pub fn flush(&self) {
         self.local.borrow_mut().flush(self.run);
